@@ -120,6 +120,9 @@ func (w *World) verifyUnit(u *Unit) *Exec {
 			loc.Kind = LArray
 		}
 		fr.freeVars[fv] = Val{T: ref.T, Typ: fv.Type(), NonNil: true, Loc: loc}
+		if !isArrayT(el) && !isStructT(el) && constCapture(fv) {
+			st.priv = append(st.priv, privBox{e.boxHeap(el), ref.T})
+		}
 		if !isArrayT(el) {
 			cur := e.load(st, loc)
 			e.sc.assume("true", e.sc.rangeFact(cur, el))
